@@ -373,14 +373,21 @@ void AbstractDiscreteDistribution::discretizeEqualProportions()
       bounds_[i - 1] = intMinMax_->getLowerBound() + static_cast<double>(i) * ec;
     }
 
-    values[0] = (intMinMax_->getLowerBound() + bounds_[0]) / 2;
-
-    for (i = 1; i < numberOfCategories_ - 1; i++)
+    if (numberOfCategories_ == 1)
     {
-      values[i] = (bounds_[i - 1] + bounds_[i]) / 2;
+      values[0] = (intMinMax_->getLowerBound() + intMinMax_->getUpperBound()) / 2;
     }
+    else
+    {
+      values[0] = (intMinMax_->getLowerBound() + bounds_[0]) / 2;
 
-    values[numberOfCategories_ - 1] = (intMinMax_->getUpperBound() + bounds_[numberOfCategories_ - 1]) / 2;
+      for (i = 1; i < numberOfCategories_ - 1; i++)
+      {
+        values[i] = (bounds_[i - 1] + bounds_[i]) / 2;
+      }
+
+      values[numberOfCategories_ - 1] = (intMinMax_->getUpperBound() + bounds_[numberOfCategories_ - 2]) / 2;
+    }
   }
 
   // adjustments near the boundaries of the domain, according to the precision chosen
